@@ -909,8 +909,52 @@ func (r *run) apply(si int, st *stepIn, prevStep *stepIn) error {
 	case "purge":
 		pq := *op.Q
 		q := r.question(pq.Name, pq.Type, pq.Class)
+		// purge route under a collision (aud03): the slot of the purged question's own shared key
+		// holds, in the model, the entry of a DIFFERENT question (staged for real under that real
+		// key).  "... purge - and even when two different questions collide on the 64-bit cache
+		// key, in which case the entry behaves as a miss": it must still be there afterwards.
+		type victim struct {
+			own absID
+			ent absID
+		}
+		var victims []victim
+		for _, cd := range []bool{false, true} {
+			own := absID{Name: r.fold(pq.Name), Type: pq.Type, Class: pq.Class, CD: cd, Scope: "sh"}
+			k, in := r.inDom[preKey(own)]
+			if !in {
+				continue
+			}
+			ent, held := prevStep.Pos[strconv.Itoa(k)]
+			if !held || (r.fold(ent.Name) == r.fold(pq.Name) && ent.Type == pq.Type && ent.Class == pq.Class) {
+				continue
+			}
+			if _, there := r.st.LookupByKey(r.realKey(own)); there {
+				victims = append(victims, victim{own, ent})
+			}
+		}
 		r.c.Purge(q)
 		r.note("purge %v", q)
+		for _, v := range victims {
+			r.res.Count("purge_collision_victims", 1)
+			if _, there := r.st.LookupByKey(r.realKey(v.own)); !there {
+				var dims []string
+				if r.fold(v.ent.Name) != r.fold(pq.Name) {
+					dims = append(dims, "name")
+				}
+				if v.ent.Type != pq.Type {
+					dims = append(dims, "type")
+				}
+				if v.ent.Class != pq.Class {
+					dims = append(dims, "class")
+				}
+				key := "purge-collision/" + strings.Join(dims, "+") // independent of the name family
+				r.res.Violate(key, fmt.Sprintf("[%s %s] Purge(%q %s %s) evicted the entry of a different question (%q %s %s cd=%v scope=%s) "+
+					"that collides with it on the 64-bit key (cd=%v slot): the colliding entry did not behave as a miss on the purge route",
+					r.beh.Name, r.u.family, q.Name, dns.Type(q.Qtype), dns.Class(q.Qclass),
+					r.u.name[v.ent.Name], dns.Type(r.u.types[v.ent.Type]), dns.Class(r.u.classes[v.ent.Class]), v.ent.CD, v.ent.Scope, v.own.CD),
+					map[string]any{"behaviour": r.beh, "family": r.u.family, "variant": r.variant, "behaviourIndex": r.bi, "kind": "purge-collision"})
+			}
+		}
 		// An emulated collision: the slot the real purge emptied by key is, in the model, the
 		// same slot as its siblings' -- drop those copies (never the purged question's own keys).
 		own := map[string]bool{}
